@@ -612,6 +612,11 @@ def op_deps(op):
     return acc
 
 
+# set by the thread scheduler: told when the call into yarl proper begins and ends (arguments are built and
+# results are rendered outside of it)
+CALL_HOOK = [None]
+
+
 def apply_op(op, slots):
     """Execute one op.  Returns (outcome, result_object_or_None, m3_violation_or_None)."""
     name = op["op"]
@@ -630,7 +635,15 @@ def apply_op(op, slots):
     try:
         with warnings.catch_warnings():
             warnings.simplefilter("ignore")
-            res = _dispatch(name, op, slots, args, kwargs)
+            hook = CALL_HOOK[0]
+            if hook is None:
+                res = _dispatch(name, op, slots, args, kwargs)
+            else:
+                hook(True)
+                try:
+                    res = _dispatch(name, op, slots, args, kwargs)
+                finally:
+                    hook(False)
         if URL is not None and type(res) is URL:
             out = ["url", vrepr(res)]
         elif name == "mk":
